@@ -1,5 +1,6 @@
 """ctypes binding of /verif/native/build/libvf.so (rebuilt from /repo/src by native/build.sh)."""
 import ctypes
+import os
 import subprocess
 from pathlib import Path
 
@@ -8,6 +9,10 @@ import numpy as np
 from .common import VERIF, MachineryError
 
 _lib = None
+
+
+def build_dir():
+    return Path(os.environ.get("VERIF_NATIVE_BUILD", str(VERIF / "native" / "build")))
 
 
 def build(san=False):
@@ -21,7 +26,7 @@ def lib(rebuild=True):
     if _lib is None:
         if rebuild:
             build()
-        _lib = ctypes.CDLL(str(VERIF / "native" / "build" / "libvf.so"))
+        _lib = ctypes.CDLL(str(build_dir() / "libvf.so"))
         _lib.vf_torontonian_d.restype = ctypes.c_double
         _lib.vf_loop_torontonian_d.restype = ctypes.c_double
         _lib.vf_pfaffian_d.restype = ctypes.c_double
